@@ -274,10 +274,14 @@ def run(ctx: Ctx):
         "with a non-update iteration between / >=2 actor updates and a skipped one / non-divisible totals."
     )
     ctx.assumptions = ["x64", "generic drawn weights give a non-zero actor gradient (a zero gradient has probability zero)"]
-    dqn_cfgs = [(1, 2, 2), (2, 1, 3), (1, 3, 1)] + ([(3, 2, 5), (2, 2, 4), (1, 1, 2)] if not ctx.quick else [])
+    # (num_envs, num_steps, interval): include pairs with gcd(num_envs, interval) > 1 and num_steps > 1 so that a
+    # schedule counted in env steps / transitions instead of iterations is distinguishable
+    dqn_cfgs = [(1, 2, 2), (2, 1, 4), (3, 2, 3), (2, 3, 2)]
+    if not ctx.quick:
+        dqn_cfgs = [(E, S, I) for E in (1, 2, 3) for I in (1, 2, 3, 4, 5) for S in ((1, 2) if (E + I) % 2 else (2,))]
     for E, S, I in dqn_cfgs:
-        ctx.run_given("dqn", hist_cases("dqn", E, S, {"interval": I}), oracle_dqn, ctx.n(25, 400), shrink=False)
-    sac_cfgs = [(1, 2, 2, True), (2, 1, 3, False), (1, 1, 1, True)] + ([(3, 2, 4, True), (2, 2, 2, False)] if not ctx.quick else [])
+        ctx.run_given("dqn", hist_cases("dqn", E, S, {"interval": I}), oracle_dqn, ctx.n(18, 150), shrink=False)
+    sac_cfgs = [(1, 2, 2, True), (2, 1, 4, False), (3, 2, 3, True)] + ([(3, 2, 4, True), (2, 2, 2, False), (1, 1, 1, True), (2, 3, 3, True)] if not ctx.quick else [])
     for E, S, pf, at in sac_cfgs:
         ctx.run_given("sac", hist_cases("sac", E, S, {"pf": pf, "autotune": at}), oracle_sac, ctx.n(20, 300), shrink=False)
     learn_cfgs = [("PPO", 2, 4, 29), ("A2C", 1, 5, 15), ("DQN", 2, 3, 20), ("SAC", 1, 2, 7), ("PPO", 3, 2, 5)]
